@@ -402,7 +402,7 @@ func propC03(c *Ctx) {
 	}
 	for li := range langVals {
 		for _, n := range entSizes {
-			if c.quick && (li+n/4)%3 != int(r.Seed%3) {
+			if c.quick && (li+n/4)%5 != int(r.Seed%5) {
 				continue
 			}
 			c.damageClasses(li, n)
